@@ -22,6 +22,7 @@ From RU Require Import Proofs.C02_Ovr Proofs.C02_Reach7.
 From RU Require Import Proofs.C02_File Proofs.C02_FileL1 Proofs.C02_FileCanon.
 From RU Require Import Proofs.C02_FileParse Proofs.C02_FileHost Proofs.C02_FileSet Proofs.C02_Reach8.
 From RU Require Import Proofs.C02_FileOps Proofs.C02_FileJoin Proofs.C02_PathSetter Proofs.C02_FileSetPath Proofs.C02_Reach9.
+From RU Require Model.FilePath Proofs.C20_Path Proofs.C02_FilePathConv.
 Open Scope string_scope.
 Open Scope N_scope.
 Open Scope list_scope.
@@ -1840,6 +1841,31 @@ Example C02_reach_partial8_inhabited :
      && file_path_op (file_curl host_display None (B "/x") None None) (OSetPath (B "\\a/../b"))
      && file_op8 (OSetHost None) && file_op8 (OQProtocol (B "ws:")) && file_op8 (OSetPort (Some 8080)) = true.
 Proof. exact reach8_example. Qed.
+
+(* R.5  outside the history quantifier: Url::from_file_path / from_directory_path (unix model, Model/FilePath.v) give
+   canonical file records - hence fixpoints, by C02_FileCanon_fixpoint - when the path has no ".." component and the
+   result is outside Known_file_drive; with a ".." component the result is NOT a fixpoint (F-C02-5) *)
+Theorem C02_from_file_path_File : forall hp hd p u, bytes p -> FilePath.from_file_path p = FilePath.FOk u ->
+  Forall (fun k => k <> [46; 46]) (C20_Path.kept p) -> Known_file_drive u = false -> FileCanon hp hd u.
+Proof. exact C02_FilePathConv.from_file_path_File. Qed.
+Print Assumptions C02_from_file_path_File.
+
+Theorem C02_from_directory_path_File : forall hp hd p u, bytes p -> FilePath.from_directory_path p = FilePath.FOk u ->
+  Forall (fun k => k <> [46; 46]) (C20_Path.kept p) -> Known_file_drive u = false -> FileCanon hp hd u.
+Proof. exact C02_FilePathConv.from_directory_path_File. Qed.
+Print Assumptions C02_from_directory_path_File.
+
+Example C02_from_file_path_inhabited :
+  match FilePath.from_file_path (B "/a/./b c//%2e") with
+  | FilePath.FOk u => list_eqb (ser u) (B "file:///a/b%20c/%252e") && m_fix u && negb (Known_file_drive u)
+             && forallb (fun k => negb (list_eqb k [46; 46])) (C20_Path.kept (B "/a/./b c//%2e"))
+  | _ => false end = true
+  /\ match FilePath.from_directory_path (B "/a/b") with
+     | FilePath.FOk u => list_eqb (ser u) (B "file:///a/b/") && m_fix u | _ => false end = true
+  /\ match FilePath.from_file_path (B "/a/../b") with
+     | FilePath.FOk u => list_eqb (ser u) (B "file:///a/../b") && negb (m_fix u) && negb (Known_file_drive u)
+     | _ => false end = true.
+Proof. exact C02_FilePathConv.from_file_path_example. Qed.
 
 (* ---------- F. every excluded class contains a history that is not a fixpoint ---------- *)
 Theorem C02_F_C03_5_refuted :
